@@ -10,6 +10,8 @@ import (
 	badger "github.com/dgraph-io/badger/v4"
 	"github.com/dgraph-io/badger/v4/options"
 
+	"github.com/dgraph-io/badger/v4/y"
+
 	"verif/h/core"
 	"verif/h/drv"
 	"verif/h/gen"
@@ -105,6 +107,7 @@ func driverRunX(c *core.Ctx, id string, work string, idx int, managed bool, r *r
 	w := &drv.World{C: c, Sig: id, DB: db, Opt: opt, Managed: managed, M: model.New(), R: r, Keys: gen.KeySet(r, 10+r.Intn(30), 8), NextTs: 5}
 	if idx%2 == 1 {
 		w.Locality = 2 + idx%4 // L0 tables with different, partly overlapping key ranges
+		w.Pivot = idx%4 == 3   // ... that again and again begin or end at one pivot key
 	}
 	defer func() {
 		w.CloseSnapshots()
@@ -258,6 +261,76 @@ func l0ToL0Scenario(c *core.Ctx, id string, work string, idx int, r *rand.Rand) 
 	c.Distinct(fmt.Sprintf("l0tol0|n1=%d|n2=%d|leftout=%v", n1, n2, left > 1))
 }
 
+// boundaryScenario: a table on level n whose biggest key is the tombstone of K, and a table on level
+// n+1 whose smallest key is an older version of K (table boundaries carry versions); the production
+// picker then compacts level n into n+1. K must stay deleted.
+func boundaryScenario(c *core.Ctx, id string, work string, idx int, r *rand.Rand) {
+	dir := filepath.Join(work, fmt.Sprintf("bnd-%d", idx))
+	_ = os.MkdirAll(dir, 0o755)
+	defer os.RemoveAll(dir)
+	opt, _ := drvOptions(dir, 0)
+	opt.MaxLevels = 4 + idx%3
+	opt.MemTableSize = 1 << 20
+	db, err := drv.Open(opt, false)
+	if err != nil {
+		c.Inconclusive("open: " + err.Error())
+		return
+	}
+	w := &drv.World{C: c, Sig: id + "|boundary", DB: db, Opt: opt, M: model.New(), R: r, Keys: gen.KeySet(r, 4, 4)}
+	defer func() { _ = w.DB.Close() }()
+	c.Eval(1)
+	last := opt.MaxLevels - 1
+	pushDown := func(to int) {
+		for l := 0; l < to; l++ {
+			for i := 0; i < 4 && w.CompactForce(l, 1); i++ {
+			}
+		}
+	}
+	// filler below every other key, large enough for the base level to move above the last level
+	for b := 0; b < 10; b++ {
+		var specs []drv.WriteSpec
+		for i := 0; i < 100; i++ {
+			specs = append(specs, drv.WriteSpec{Key: []byte(fmt.Sprintf("A%02d-%04d", b, i)), Len: 40})
+		}
+		_, _ = w.Commit(specs)
+	}
+	w.Flush()
+	pushDown(last)
+	// Y: older version of K and larger keys, pushed to the last level (does not overlap the filler)
+	K := []byte("k5")
+	_, _ = w.Commit([]drv.WriteSpec{{Key: K, Len: 40}, {Key: []byte("k6"), Len: 40}, {Key: []byte("k7"), Len: 40}})
+	w.Flush()
+	pushDown(last)
+	// T: smaller keys and the delete of K, pushed to the level above
+	_, _ = w.Commit([]drv.WriteSpec{{Key: []byte("k3"), Len: 40}, {Key: []byte("k4"), Len: 40}})
+	_, _ = w.Commit([]drv.WriteSpec{{Key: K, Del: true}})
+	w.AdvanceWatermark()
+	w.Flush()
+	pushDown(last - 1)
+	lvlT, lvlY := -1, -1
+	for _, t := range w.DB.Tables() {
+		if string(y.ParseKey(t.Right)) == "k5" && string(y.ParseKey(t.Left)) != "k5" {
+			lvlT = t.Level
+		}
+		if string(y.ParseKey(t.Left)) == "k5" {
+			lvlY = t.Level
+		}
+	}
+	if lvlT < 1 || lvlY != lvlT+1 {
+		c.Inconclusive(fmt.Sprintf("boundary scenario: layout not reached (tombstone table on L%d, older version on L%d, base level L%d)", lvlT, lvlY, w.DB.VerifBaseLevel()))
+		return
+	}
+	w.CheckInvariance("boundary-layout")
+	if !w.CompactForce(lvlT, 1) {
+		c.Inconclusive("boundary scenario: the level compaction was not picked")
+		return
+	}
+	st := w.CheckInvariance("compact-level-with-boundary-tombstone")
+	c.Count("invariance.reads_checked", st.Gets+st.IterItems)
+	c.Count("step.compact-level-with-boundary-tombstone", 1)
+	c.Distinct(fmt.Sprintf("boundary|L%d->L%d|levels=%d", lvlT, lvlY, opt.MaxLevels))
+}
+
 // lmaxScenario builds >10 MiB of stale data on the last level and runs an Lmax->Lmax rewrite.
 func lmaxScenario(c *core.Ctx, id string, work string, idx int, r *rand.Rand) {
 	dir := filepath.Join(work, fmt.Sprintf("lmax-%d", idx))
@@ -318,7 +391,7 @@ func C12(c *core.Ctx) {
 		"production-picker compaction as compactor 0/1/2, forced level compaction, back-dated L0->L0, Lmax->Lmax rewrite, open/close snapshot, SetDiscardTs} over 6 " +
 		"option sets in normal and managed mode; after every flush/compaction the read-invariance oracle reads all keys (Get + forward/reverse iteration) now, through " +
 		"every open snapshot and (managed) at sampled timestamps >= the discard ts and compares with the model; targeted families: L0->L0 leaving out an older oversized " +
-		"L0 table, and an Lmax->Lmax rewrite over >10 MiB stale data; distinct = compaction shapes (level pair, top/bot table counts) observed through the hook plus scenario classes")
+		"L0 table, an Lmax->Lmax rewrite over >10 MiB stale data, and a level-to-level compaction of a table that ends in the tombstone of a key whose older version starts a table on the next level; distinct = compaction shapes (level pair, top/bot table counts) observed through the hook plus scenario classes")
 	work := c.WorkDir()
 	defer os.RemoveAll(work)
 	r := c.Rand("c12")
@@ -334,6 +407,9 @@ func C12(c *core.Ctx) {
 	}
 	for i := 0; i < c.Pick(1, 3); i++ {
 		lmaxScenario(c, "C12", work, i, r)
+	}
+	for i := 0; i < c.Pick(3, 12); i++ {
+		boundaryScenario(c, "C12", work, i, r)
 	}
 	sr.mu.Lock()
 	for k, v := range sr.shapes {
